@@ -219,10 +219,10 @@ class ChaosHeap:
         del self.live[k]
         ST.stats["heap_pop"] += 1
         negv = entry[0]
-        tied = 0
-        for e in self.h:
-            if e[0] == negv and self.live.get(e[3]) is e:
-                tied += 1
+        # a tie exists iff the next live entry has the same priority (O(1) peek)
+        while self.h and self.live.get(self.h[0][3]) is not self.h[0]:
+            heapq.heappop(self.h)
+        tied = 1 if (self.h and self.h[0][0] == negv) else 0
         if tied:
             ST.stats["heap_tie"] += 1
             _note(b"T", tied)
